@@ -142,6 +142,8 @@ where
         // This is necessary because there may be outstanding read locks
         // for the invalidated value.
         let mut cache_opt = self.cache.write().await;
+        #[cfg(remoc_verif)]
+        crate::verif::emit("rw_fetch_wlock", &[("key", Arc::as_ptr(&self.cache) as *const () as u64)]);
 
         // Another task may have stored a valid value while we were waiting for the write lock.
         if matches!(&*cache_opt, Some(cache) if cache.is_valid()) {
@@ -157,7 +159,11 @@ where
         // Request and receive current value.
         let (value_tx, value_rx) = oneshot::channel();
         let _ = self.req_tx.send(ReadRequest { value_tx }).await;
+        #[cfg(remoc_verif)]
+        crate::verif::emit("rw_fetch_requested", &[("key", Arc::as_ptr(&self.cache) as *const () as u64)]);
         let value = value_rx.await?;
+        #[cfg(remoc_verif)]
+        crate::verif::emit("rw_fetch_got", &[("key", Arc::as_ptr(&self.cache) as *const () as u64)]);
 
         // Start task that monitors cache validity and releases cache
         // when it becomes invalid.
@@ -181,7 +187,11 @@ where
                 // This will wait until all read locks are released.
                 // The validity check is necessary, because a new (valid) cached value may
                 // have been written while we were waiting to acquire the write lock.
+                #[cfg(remoc_verif)]
+                crate::verif::emit("rw_mon_invalid", &[("key", Arc::as_ptr(&cache_lock) as *const () as u64)]);
                 let mut cache_opt = cache_lock.write().await;
+                #[cfg(remoc_verif)]
+                crate::verif::emit("rw_mon_wlock", &[("key", Arc::as_ptr(&cache_lock) as *const () as u64)]);
                 match &*cache_opt {
                     Some(cache) if !cache.is_valid() => *cache_opt = None,
                     _ => (),
